@@ -130,7 +130,8 @@ CHECKS = {
             "DESIGN.md section 3, C19"),
     "C09": ("exploration",
             "mutation fuzzing and coverage-guided fuzzing (libFuzzer) of the ASan+UBSan+assert build of sbeppc (fmt compiled "
-            "in, so its reads are instrumented) with a process-level monitor (wait status, sanitizer/assert output, "
+            "in, so its reads are instrumented) and, for every fourth input, of a libstdc++ debug-mode build (safe iterators) "
+            "with a process-level monitor (wait status, sanitizer/assert/debug-mode output, "
             "diagnostic line, output directory)",
             "Thousands (quick) to hundreds of thousands (thorough) of structure-aware and byte-level mutants of valid "
             "schemas (every third spread over XIncluded files), include graphs, a typed attribute sweep and an argv grammar are "
